@@ -3,7 +3,7 @@ From Coq Require Import ZArith List Bool.
 From Coq Require String.
 From PS.model Require Import Smt Enc Ind Prog.
 From PS.spec Require Import Spec.
-From PS.proofs Require Import Base SortNoDup C03_contig Cons_proof Res_proof Wf_proof C06_proof C05_proof Reach_proof C03_reach Examples Examples4.
+From PS.proofs Require Import Base SortNoDup C03_contig Cons_proof Res_proof Wf_proof C06_proof C05_proof Reach_proof C03_reach Examples Examples4 Refuted.
 Import ListNotations.
 Open Scope Z_scope.
 
@@ -60,3 +60,12 @@ Theorem C03_hypotheses_satisfiable : exists st, reaches ex2_prog st /\ sat ex2_e
   /\ List.length (ps_cons st) = 18%nat /\ List.length (spec_all st) = 86%nat.
 Proof. exact ex2_sat. Qed.
 Print Assumptions C03_hypotheses_satisfiable.
+
+(* ---- REFUTED on the pinned code (open known findings): the swept clauses below are NOT consequences of the assertion set.
+   Each theorem exhibits a reachable problem state, a valuation the assertion set admits, and a clause of the swept list that is
+   false under it -- all three evaluated by the kernel.  The same program and schedule, replayed on /repo, is the finding. ---- *)
+(* F05: ScheduleNTasksInTimeIntervals, kinds max / exact: the count is not bounded from above *)
+Theorem C03_scheduleN_upper_refuted : exists st, reaches f05_prog st /\ sat f05_env (initialize st) /\
+  exists k f, In (k, f) (spec_C03_swept st) /\ feval f05_env f = false.
+Proof. exact F05_refuted_any. Qed.
+Print Assumptions C03_scheduleN_upper_refuted.
